@@ -63,6 +63,11 @@ def translate(ctx):
     for n, t in tabs.items():
         body.append(f"def {n} : Table :=\n   {_lean_table(t)}\n")
     body.append("def allTables : List (String × Table) :=\n  [" + ", ".join(f'("{n}", {n})' for n in tabs) + "]")
+    # the two generated default tables in full (l = 0..24): compared with their closed forms by default_tables_closed_form
+    import iodata.convert as cv
+
+    for n, t in (("horton2Full", cv.HORTON2_CONVENTIONS), ("ccaFull", cv.CCA_CONVENTIONS)):
+        body.append(f"\ndef {n} : Table :=\n   {_lean_table({k: list(v) for k, v in t.items()})}")
     body.append("\nend Iodata.Gen.Conventions\n")
     ctx.gen_write("Conventions", "\n".join(body))
 
@@ -311,6 +316,32 @@ def _py_wellformed(key, labels):
 def search(ctx):
     tabs = _tables()
     rng = ctx.rng
+    # the generated default tables beyond what the Lean tables hold are covered by default_tables_closed_form; here
+    # every entry up to l = 24 once more against the Python statement of well-formedness, and HORTON2 <-> CCA
+    import iodata.convert as cv
+    import random
+
+    for name, t in (("horton2", cv.HORTON2_CONVENTIONS), ("cca", cv.CCA_CONVENTIONS)):
+        for k, labels in t.items():
+            ok = _py_wellformed(k, list(labels))
+            ctx.count("table-entry-full", [name, k], "ok" if ok else "bad")
+            if not ok:
+                ctx.fail(f"table:{name}:{k[0]}{k[1]}", f"default table {name}{k} is not a complete duplicate-free list "
+                         f"({len(labels)} labels)", {"kind": "table-full", "table": name, "key": list(k)})
+    for k in cv.HORTON2_CONVENTIONS:
+        if k in cv.CCA_CONVENTIONS and k[0] > 9:
+            r = check_shell(list(cv.HORTON2_CONVENTIONS[k]), list(cv.CCA_CONVENTIONS[k]))
+            ctx.count("pair-full", ["horton2", "cca", k], "ok" if r is None else r[0])
+            if r:
+                ctx.fail(f"{r[0]}:horton2->cca:{k}", r[1], {"kind": "table-full", "table": "cca", "key": list(k)})
+    # histories on objects that stay alive and are edited in place
+    for _ in range(ctx.n(150, 2000) * (4 if ctx.escalated else 1)):
+        hs = rng.getrandbits(48)
+        nsteps = rng.choice([2, 3, 5, 8])
+        r = check_inplace_history(random.Random(hs), tabs["horton2"], nsteps)
+        ctx.count("search-inplace-history", [hs, nsteps], "ok" if r is None else r[0])
+        if r:
+            ctx.fail(r[0], r[1], {"kind": "history", "rngseed": hs, "nsteps": nsteps, "steps": r[2][-4:]})
     for name, t in tabs.items():
         for k, labels in t.items():
             ok = _py_wellformed(k, labels)
@@ -390,10 +421,92 @@ def search(ctx):
                       "t2": {f"{a}{b}": v for (a, b), v in t2.items()}})
 
 
+def _spec_shell(c1, c2):
+    """the permutation and signs the property prescribes, computed from the labels alone; None = must be refused"""
+    if not _compatible(c1, c2):
+        return None
+    pos = {_strip(x): i for i, x in enumerate(c1)}
+    perm = [pos[_strip(y)] for y in c2]
+    return perm, [_sg(c1[i]) * _sg(y) for i, y in zip(perm, c2)]
+
+
+def check_inplace_history(rng, h2, nsteps):
+    """One basis object and one target table, both kept alive and edited IN PLACE between conversions (entries
+    re-ordered, signs flipped, a label corrupted and repaired): every conversion must reflect the current contents.
+    Returns None or (sig, what, replayable steps)."""
+    from iodata.basis import MolecularBasis, Shell
+    from iodata.convert import convert_conventions
+
+    keys = rng.sample(sorted(h2), rng.randint(1, 3))
+    t1 = {k: _rand_conv(rng, h2[k]) for k in keys}
+    t2 = {k: _rand_conv(rng, h2[k]) for k in keys}
+    shells = [Shell(i % 2, np.array([k[0]]), [k[1]], np.ones(1), np.ones((1, 1))) for i, k in enumerate(keys)]
+    ob = MolecularBasis(shells, t1, "L2")
+    steps = []
+    for step in range(nsteps):
+        tab = rng.choice([t1, t2])
+        k = rng.choice(keys)
+        lst = tab[k]
+        op = rng.choice(["swap", "sign", "corrupt", "repair", "none"]) if len(lst) > 1 else rng.choice(["sign", "none"])
+        if op == "swap":
+            i, j = rng.sample(range(len(lst)), 2)
+            lst[i], lst[j] = lst[j], lst[i]
+        elif op == "sign":
+            i = rng.randrange(len(lst))
+            lst[i] = lst[i][1:] if lst[i].startswith("-") else "-" + lst[i]
+        elif op == "corrupt":
+            i, j = rng.sample(range(len(lst)), 2)
+            lst[i] = lst[j]
+        elif op == "repair":
+            lst[:] = _rand_conv(rng, h2[k])
+        rev = rng.random() < 0.3
+        steps.append({"op": op, "t1": {f"{a}{b}": list(v) for (a, b), v in t1.items()},
+                      "t2": {f"{a}{b}": list(v) for (a, b), v in t2.items()}, "rev": rev})
+        spec = [_spec_shell(t1[k2], t2[k2]) for k2 in keys]
+        try:
+            p, sg = convert_conventions(ob, t2, rev)
+            got = (list(map(int, p)), list(map(int, sg)))
+        except ValueError:
+            got = None
+        except Exception as exc:  # noqa: BLE001
+            return ("conv-wrong-exception:history", f"{type(exc).__name__} after in-place edits", steps)
+        if any(x is None for x in spec):
+            want = None
+        else:
+            perm, sign, off = [], [], 0
+            for pm, sgn in spec:
+                perm += [off + i for i in pm]
+                sign += sgn
+                off += len(pm)
+            if rev:
+                inv = [0] * len(perm)
+                isg = [0] * len(perm)
+                for j, i in enumerate(perm):
+                    inv[i], isg[i] = j, sign[j]
+                perm, sign = inv, isg
+            want = (perm, sign)
+        if got != want:
+            what = ("stale or wrong result" if got is not None and want is not None else
+                    "accepted conventions that are invalid now" if want is None else "refused conventions that are valid now")
+            return ("conv-inplace-history", f"step {step} ({op}): {what}: got {got}, the current labels prescribe {want}", steps)
+    return None
+
+
 def replay(ctx, obj):
     inp = obj["input"]
+    if inp["kind"] == "history":
+        import random
+
+        return check_inplace_history(random.Random(inp["rngseed"]), _tables()["horton2"], inp["nsteps"]) is not None
     if inp["kind"] == "shell":
         return check_shell(inp["c1"], inp["c2"]) is not None
+    if inp["kind"] == "table-full":
+        import iodata.convert as cv
+
+        t = cv.HORTON2_CONVENTIONS if inp["table"] == "horton2" else cv.CCA_CONVENTIONS
+        k = tuple(inp["key"])
+        return not _py_wellformed(k, list(t[k])) or (k in cv.HORTON2_CONVENTIONS and k in cv.CCA_CONVENTIONS and
+                                                   check_shell(list(cv.HORTON2_CONVENTIONS[k]), list(cv.CCA_CONVENTIONS[k])) is not None)
     if inp["kind"] == "table":
         t = _tables()[inp["table"]]
         return not _py_wellformed(tuple(inp["key"]), t[tuple(inp["key"])])
